@@ -692,6 +692,9 @@ func c16err(err error) string {
 }
 
 func (r *c16scan) obs(res string) string {
+	if blindObs { // second, query-free execution (Stream.Blind): Text/Complete/Err are not asked
+		return res
+	}
 	return fmt.Sprintf("%s text=%s complete=%s err=%s", res, c15hex([]byte(r.sc.Text())), fmtBool(r.sc.Complete()), c16err(r.sc.Err()))
 }
 
@@ -720,10 +723,10 @@ func (r *c16scan) Exec(op []string) string {
 		ok := r.sc.Next()
 		if !ok {
 			r.sawEnd = true
-		} else if r.sc.Err() == io.EOF && !r.sc.Complete() {
+		} else if !blindObs && r.sc.Err() == io.EOF && !r.sc.Complete() {
 			r.st.Note("final-token-incomplete")
 		}
-		if ok {
+		if ok && !blindObs { // label only: no query in the query-free execution
 			r.noteTok(len(r.sc.Text()))
 		}
 		return r.obs("next=" + fmtBool(ok))
@@ -1521,6 +1524,6 @@ func c15large(g *G) {
 
 func init() {
 	register(&Stream{Name: "C16", Gen: genC16, New: func(st *Stats) Runner { return &c16{st: st} }})
-	register(&Stream{Name: "C16.scanner", Gen: genC16Scanner, New: func(st *Stats) Runner { return &c16scan{st: st} }})
+	register(&Stream{Name: "C16.scanner", Gen: genC16Scanner, Blind: true, New: func(st *Stats) Runner { return &c16scan{st: st} }})
 	register(&Stream{Name: "C15", Gen: genC15, New: func(st *Stats) Runner { return &c15{st: st} }})
 }
